@@ -54,11 +54,14 @@ XPATH_WORDS = ('for', 'if', 'is', 'to', 'return', 'div', 'mod', 'idiv', 'and', '
                'else', 'instance', 'of', 'cast', 'castable', 'treat', 'as', 'union', 'intersect', 'except', 'eq', 'ne', 'lt', 'le', 'gt',
                'ge', 'child', 'descendant', 'attribute', 'self', 'parent', 'ancestor', 'following', 'preceding', 'namespace',
                'text', 'node', 'comment', 'element', 'item', 'document-node', 'processing-instruction', 'count', 'last', 'position',
-               'not', 'true', 'map', 'array', 'function')
+               'not', 'true', 'map', 'array', 'function', 'namespace-node', 'empty-sequence', 'schema-element', 'schema-attribute')
+# the bare kind-test / item-type names (also used, bare, as namespace prefixes)
+KIND_TEST_NAMES = ('node', 'namespace-node', 'text', 'comment', 'processing-instruction', 'element', 'attribute', 'document-node',
+                   'item', 'function', 'map', 'array', 'empty-sequence', 'schema-element', 'schema-attribute')
 KEYWORD_NAMES = tuple(dict.fromkeys(
     ['for.each', 'if.empty', 'is.valid', 'to.date', 'return.code', 'div.x', 'mod.1', 'and.or', 'let.x', 'some.x', 'every.x',
      'instance.of', 'cast.as', 'union.x', 'eq.x'] + [w + sfx for w in XPATH_WORDS for sfx in ('.x', '-x', '', '1', '_x')]))
-KEYWORD_PREFIXES = ('for.each', 'if.x', 'div-x', 'eq.x', 'union', 'to1', 'is_x', 'child.x')
+KEYWORD_PREFIXES = ('for.each', 'if.x', 'div-x', 'eq.x', 'union', 'to1', 'is_x', 'child.x') + KIND_TEST_NAMES
 for _i, _p in enumerate(KEYWORD_PREFIXES, 1):
     PREFIX_URI[_p] = 'urn:kw%d' % _i
     CANON_PREFIX['urn:kw%d' % _i] = _p
@@ -332,7 +335,8 @@ def tree_specs(draw, max_elems=12, max_depth=4, max_attrs=3, ns=True, doc_misc=T
         kwu = st.sampled_from(['urn:kw%d' % i for i in range(1, len(KEYWORD_PREFIXES) + 1)])
         elem_ns = st.one_of(elem_ns, elem_ns, elem_ns, kwu)
         attr_ns = st.one_of(attr_ns, attr_ns, attr_ns, kwu)
-        decls = st.one_of(decls, decls, decls, st.sampled_from(KEYWORD_PREFIXES).map(lambda p: (p,)))
+        decls = st.one_of(decls, decls, decls, st.sampled_from(KEYWORD_PREFIXES).map(lambda p: (p,)),
+                          st.sampled_from(KIND_TEST_NAMES).map(lambda p: (p, 'p')), st.sampled_from(KIND_TEST_NAMES).map(lambda p: ('q', p)))
     attr = st.tuples(attr_ns, st.sampled_from(attr_locals), st.sampled_from(ATTR_VALUES)).map(list)
 
     def elem(depth):
